@@ -13,6 +13,8 @@
   thr_clear_on_catch       exception_catch resets `active` when it hands the exception out (repair D3)
   thr_join_waits           Thread_Join calls pthread_join on the thread's handle
   thr_with_is_lock_unlock  Mutex's Start instance is (Mutex_Lock, Mutex_Unlock)
+  thr_lock_blocking        Mutex_Lock's UNIX branch is a plain `int err = pthread_mutex_lock(&m->mutex);` (no timed /
+                           try variant whose failure could be mistaken for an acquisition)
   thr_mark_own_tls_only    Thread_Mark returns at once unless self is the current thread (repair 6bcc387)
 """
 import re
@@ -77,6 +79,17 @@ def generate(repo, emit, src, func_body):
         emit('thr_mark_own_tls_only', 'Definition thr_mark_own_tls_only : bool := %s.' % _b(own))
     else:
         emit('thr_mark_own_tls_only', None)
+
+    # ---- Mutex_Lock blocks without a deadline: plain pthread_mutex_lock in the UNIX branch
+    b = func_body(th, r'static\s+void\s+Mutex_Lock\s*\(\s*var\s+self\s*\)\s*\{')
+    if b:
+        m = re.search(r'#if\s+defined\(CELLO_UNIX\)(.*?)#elif', b, re.S)
+        unix = m.group(1) if m else b
+        plain = bool(re.search(r'int\s+err\s*=\s*pthread_mutex_lock\(\s*&m->mutex\s*\)\s*;', unix)) and \
+            not re.search(r'timedlock|clocklock|trylock', unix)
+        emit('thr_lock_blocking', 'Definition thr_lock_blocking : bool := %s.   (* Mutex_Lock: plain blocking pthread_mutex_lock *)' % _b(plain))
+    else:
+        emit('thr_lock_blocking', None)
 
     # ---- join / with
     b = func_body(th, r'static\s+void\s+Thread_Join\s*\(\s*var\s+self\s*\)\s*\{')
